@@ -114,6 +114,13 @@ def compat_str(s: Union[str, bytes]) -> Union[str, bytes]:
         return s
 
 
+# Hashing a tuple costs time proportional to its size *as a tree*: CPython does not
+# cache tuple hashes.  Marshal's reference table (TYPE_REF) lets a few hundred bytes
+# describe a tuple that refers twice to a tuple that refers twice to ... - a tree of
+# 2**n nodes.  Refuse to hash such a thing instead of hanging.
+MAX_HASHED_NODES = 1000000
+
+
 def compat_u2s(u):
     if PYTHON_VERSION_TRIPLE < (3, 0):
         # See also ``unaccent.py`` which can be found using Google. I
@@ -164,6 +171,8 @@ class _VersionIndependentUnmarshaller:
 
         self.internStrings = []
         self.internObjects = []
+        # id(container) -> number of nodes visited when hashing it, see check_hash_cost()
+        self.hash_cost = {}
         self.version_tuple = tuple()
         self.is_graal = False
         self.is_pypy = False
@@ -184,6 +193,29 @@ class _VersionIndependentUnmarshaller:
             assert self.internObjects == []
 
         return self.r_object()
+
+    def check_hash_cost(self, obj):
+        """Return ``obj``, a would-be set member or dict key, unless hashing it
+        would visit more than MAX_HASHED_NODES nodes; then raise ValueError.
+        The size of each container is computed once (by identity), so the
+        check itself is linear in the number of distinct objects."""
+        sizes = self.hash_cost
+        stack = [(obj, False)]
+        while stack:
+            item, children_done = stack.pop()
+            if not isinstance(item, (tuple, frozenset)) or id(item) in sizes:
+                continue
+            if children_done:
+                size = 1 + sum(sizes.get(id(child), 1) for child in item)
+                if size > MAX_HASHED_NODES:
+                    raise ValueError(
+                        "set member or dict key is too large to hash (shared references?)"
+                    )
+                sizes[id(item)] = size
+            else:
+                stack.append((item, True))
+                stack.extend((child, False) for child in item)
+        return obj
 
     # Python 3.4+ support for reference objects.
     # The names follow marshal.c
@@ -415,7 +447,7 @@ class _VersionIndependentUnmarshaller:
         setsize = unpack("<i", self.fp.read(4))[0]
         ret, i = self.r_ref_reserve(tuple(), save_ref)
         while setsize > 0:
-            ret += (self.r_object(bytes_for_s=bytes_for_s),)
+            ret += (self.check_hash_cost(self.r_object(bytes_for_s=bytes_for_s)),)
             setsize -= 1
         return self.r_ref_insert(frozenset(ret), i)
 
@@ -423,7 +455,7 @@ class _VersionIndependentUnmarshaller:
         setsize = unpack("<i", self.fp.read(4))[0]
         ret, i = self.r_ref_reserve(tuple(), save_ref)
         while setsize > 0:
-            ret += (self.r_object(bytes_for_s=bytes_for_s),)
+            ret += (self.check_hash_cost(self.r_object(bytes_for_s=bytes_for_s)),)
             setsize -= 1
         return self.r_ref_insert(set(ret), i)
 
@@ -437,7 +469,7 @@ class _VersionIndependentUnmarshaller:
             val = self.r_object(bytes_for_s=bytes_for_s)
             if val is None:
                 break
-            ret[key] = val
+            ret[self.check_hash_cost(key)] = val
             pass
         return ret
 
